@@ -86,6 +86,10 @@ def MATCH(
 
     for i, val in enumerate(lookup_array):
         if val == lookup_value:
+            if match_type == 1 and lookup_array[i + 1:i + 2] == [val]:
+                # Ascending data with repeated values: the last position
+                # whose value does not exceed the lookup value.
+                continue
             return i + 1
         if match_type == 1 and val > lookup_value:
             return i or xlerrors.NaExcelError(
